@@ -399,7 +399,7 @@ func (q *qgen) odd() error {
 	case 2:
 		pg = page("-", uint64(count+g.rng.Intn(3)), uint64(g.rng.Intn(4)), true, g.chance(30))
 	case 3:
-		pg = page("-", 0, []uint64{100, 101, 1000, 4294967296}[g.rng.Intn(4)], g.chance(50), g.chance(30))
+		pg = page("-", 0, []uint64{100, 101, 1000, 4294967296, 1<<63 - 1, 1 << 63, 1<<64 - 1}[g.rng.Intn(7)], g.chance(50), g.chance(30))
 	default:
 		pg = page("-", 0, 0, g.chance(50), true)
 	}
